@@ -378,6 +378,8 @@ func RunC08(c *Ctx) {
 	}
 	// every expression form in every slot where the grammar allows any expression
 	valueSlotMatrix(c, func(entry, input string) { CheckC08(c, entry, input) })
+	// every query form as parenthesised leading operand of every larger query form in every query slot
+	querySlotMatrix(c, func(entry, input string) { CheckC08(c, entry, input) })
 	// identifiers that spell a pseudo-keyword of the same sentence (always back-quoted) are ordinary identifiers
 	pkwNamedWorkload(c, func(entry, input string) { CheckC08(c, entry, input) })
 	// keyword-like identifiers in lower / upper case are covered by render policies 0 (upper) and 1 (lower)
@@ -416,6 +418,7 @@ var ScopeProbes = []ScopeProbe{
 	{"query", "SELECT * FROM (SELECT 1) AS a"},
 	{"type", "ARRAY<STRUCT< >>"}, {"type", "STRUCT<a INT64, b STRUCT< >>"}, {"type", "ARRAY<STRUCT</* c */>>"}, {"expr", "CAST(x AS ARRAY<STRUCT< >>)"}, {"type", "ARRAY<ARRAY<INT64 >>"},
 	{"query", "SELECT * FROM ((SELECT 1))"},
+	{"query", "SELECT ((SELECT 1) |> WHERE TRUE)"}, {"expr", "a IN ((SELECT 1) |> WHERE TRUE)"},
 	{"dml", "DELETE FROM t WHERE TRUE THEN RETURN WITH(a AS 1, a)"},
 	{"expr", "a[`offset`]"},
 	{"ddl", "CREATE TABLE t (a ARRAY<`string`>) PRIMARY KEY (a)"},
